@@ -518,7 +518,7 @@ int run()
     const bool big = vx::thorough();
     SetMockTime(NOW);
     // AddrManImpl is ~660 KB: keep such blocks in the malloc arenas instead of mmap/munmap per replay
-    mallopt(M_MMAP_THRESHOLD, 1 << 30);
+    mallopt(M_MMAP_THRESHOLD, 16 << 20);
     mallopt(M_TRIM_THRESHOLD, 1 << 30);
     NGM = std::make_unique<NetGroupManager>(NetGroupManager::NoAsmap());
     {
